@@ -364,7 +364,7 @@ pub fn to_local_time_type(
                 
                 
                 Err(0) => {
-                    unreachable!("impossible to come before Timestamp::MIN")
+                    unreachable!()
                 }
                 Ok(i) => i,
                 
